@@ -480,6 +480,22 @@ impl TenantIdMapper {
                 .map_err(|e| {
                     anyhow::anyhow!("Failed to parse tenant map {}: {}", path.display(), e)
                 })?;
+            // ensure_tenant hands out `map.len()` as the next index, so the stored indices must
+            // be exactly 0..len, each used once. Anything else (a damaged or hand-edited file)
+            // would make two tenants share an index and see each other's documents.
+            let mut index_used = vec![false; map.len()];
+            for (tenant_id, idx) in map.iter() {
+                let slot = *idx as usize;
+                if slot >= index_used.len() || index_used[slot] {
+                    anyhow::bail!(
+                        "Tenant map {} is damaged: tenant_index {} of tenant '{}' is out of range or assigned twice",
+                        path.display(),
+                        idx,
+                        tenant_id
+                    );
+                }
+                index_used[slot] = true;
+            }
             return Ok(Self {
                 path,
                 map: parking_lot::RwLock::new(map),
